@@ -21,3 +21,5 @@ def run(ck):
     matrix.r14_negation_excludes_minimum(ck, P)
     matrix.r15_ceil_guarded(ck, P)
     matrix.r16_elementary_updates_are_products(ck, P)
+    matrix.r17_zero_divisor_always_reported(ck, P)
+    matrix.r18_division_digit_shortcuts_are_strict(ck, P)
